@@ -140,7 +140,10 @@ func TypeName(name string) string {
 	// Numeric type names are type IDs and are kept unquoted; e.g.
 	//
 	//    %2
-	if isAllDecimal(name) {
+	//
+	// A digit string with leading zeros (e.g. "007") is not the spelling of an
+	// ID -- LLVM would read %007 as %7 -- and is quoted like any other name.
+	if isAllDecimal(name) && (len(name) == 1 || name[0] != '0') {
 		return "%" + name
 	}
 	return "%" + EscapeIdent(name)
